@@ -8,10 +8,18 @@ Strings travel as arrays of code points (no dependence on either JSON library's 
   {"op":"rt","s":[..]}       -> {"r":[..]} | {"r":null}          dq (escape s)
   {"op":"emit","s":[..],"col":n} -> {"plainOK","allowSingle","multiline","styleV","styleK","textV":[..],"textK":[..],"emitV":[..]|null,"emitK":[..]|null}
   {"op":"loadline","s":[..],"col0":bool} -> {"r":null} | {"tag":code,"v":[..],"rest":[..]}
+  {"op":"emitdoc","v":V}     -> {"r":[..]|null,"ok":bool}       block-style text of a nested value; ok = VOK
+  {"op":"loaddoc","s":[..]}  -> {"r":V|null}                    the loader model on a whole text
+     V ::= {"sc":[tagCode,[codes]]} | {"list":[V..]} | {"dict":[[[tagCode,[codes]],V]..]}
+  {"op":"jdump","v":V,"indented":bool} -> {"r":[..],"ok":bool}  json.dumps text (compact / indent 2 + LF); ok = JOK
+  {"op":"jload","s":[..]}    -> {"r":V|null}                    the YAML loader model on a JSON text
+  {"op":"skipdef","sch":S,"cfg":V,"dflt":V} -> {"dumped":V|null,"reduced":V,"reparsed":V,"stable":bool,"conf":bool}
+     S ::= "leaf" | {"group":[[[tagCode,[codes]],S]..]};  reduced = delKV of the two top-level dicts
   {"op":"info"}              -> table sizes and names
 -/
 import Lean.Data.Json
-import Jap.Core.Emitter
+import Jap.Core.JsonDoc
+import Jap.Core.SkipDefault
 
 open Lean Jap.Scalar
 
@@ -27,6 +35,52 @@ def codes (s : List Char) : Json := .arr (s.map fun c => Json.num (JsonNumber.fr
 def optCodes : Option (List Char) → Json
   | some s => codes s
   | none => .null
+
+def scOfJson (j : Json) : Sc :=
+  match j with
+  | .arr #[.num t, .arr xs] => ⟨Tag.ofNat t.mantissa.toNat, xs.toList.map fun x => match x with
+      | .num n => Char.ofNat n.mantissa.toNat
+      | _ => 'x'⟩
+  | _ => ⟨.str, []⟩
+
+instance : Inhabited V := ⟨.sc ⟨.str, []⟩⟩
+
+partial def vOfJson (j : Json) : V :=
+  match j.getObjVal? "sc" with
+  | .ok s => .sc (scOfJson s)
+  | _ =>
+    match j.getObjVal? "list" with
+    | .ok (.arr xs) => .list (xs.toList.foldr (fun x acc => .cons (vOfJson x) acc) .nil)
+    | _ =>
+      match j.getObjVal? "dict" with
+      | .ok (.arr kvs) => .dict (kvs.toList.foldr (fun kv acc => match kv with
+          | .arr #[k, v] => .cons (scOfJson k) (vOfJson v) acc
+          | _ => acc) .nil)
+      | _ => .sc ⟨.str, []⟩
+
+def scToJson (s : Sc) : Json := .arr #[.num (JsonNumber.fromNat s.tag.code), codes s.text]
+
+mutual
+partial def vToJson : V → Json
+  | .sc s => Json.mkObj [("sc", scToJson s)]
+  | .list xs => Json.mkObj [("list", .arr (vlToJson xs).toArray)]
+  | .dict kvs => Json.mkObj [("dict", .arr (kvlToJson kvs).toArray)]
+partial def vlToJson : VL → List Json
+  | .nil => []
+  | .cons x xs => vToJson x :: vlToJson xs
+partial def kvlToJson : KVL → List Json
+  | .nil => []
+  | .cons k v r => .arr #[scToJson k, vToJson v] :: kvlToJson r
+end
+
+instance : Inhabited Sch := ⟨.leaf⟩
+
+partial def schOfJson (j : Json) : Sch :=
+  match j.getObjVal? "group" with
+  | .ok (.arr fs) => .group (fs.toList.foldr (fun f acc => match f with
+      | .arr #[k, s] => .cons (scOfJson k) (schOfJson s) acc
+      | _ => acc) .nil)
+  | _ => .leaf
 
 def getStr (j : Json) (k : String) : String :=
   match j.getObjVal? k with
@@ -58,6 +112,32 @@ def step (j : Json) : Json :=
     match loadLine s with
     | none => Json.mkObj [("r", .null)]
     | some (t, v, r) => Json.mkObj [("tag", .num (JsonNumber.fromNat t.code)), ("v", codes v), ("rest", codes r)]
+  | "emitdoc" =>
+    let v := vOfJson (j.getObjValD "v")
+    Json.mkObj [("r", optCodes (emitDoc v)), ("ok", .bool (VOK v))]
+  | "loaddoc" =>
+    match loadDoc s with
+    | none => Json.mkObj [("r", .null)]
+    | some v => Json.mkObj [("r", vToJson v)]
+  | "jdump" =>
+    let v := vOfJson (j.getObjValD "v")
+    let ind := match j.getObjVal? "indented" with
+      | .ok (.bool b) => b
+      | _ => false
+    Json.mkObj [("r", codes (if ind then jsonIndentedDump v else jsonDump v)), ("ok", .bool (JOK v))]
+  | "jload" =>
+    match jsonLoad s with
+    | none => Json.mkObj [("r", .null)]
+    | some v => Json.mkObj [("r", vToJson v)]
+  | "skipdef" =>
+    let sch := schOfJson (j.getObjValD "sch")
+    let cfg := vOfJson (j.getObjValD "cfg")
+    let dflt := vOfJson (j.getObjValD "dflt")
+    let dumped := dumpedNode cfg dflt
+    Json.mkObj [("dumped", match dumped with | some v => vToJson v | none => .null),
+      ("reduced", vToJson (.dict (delKV (fieldsOf cfg) (fieldsOf dflt)))),
+      ("reparsed", vToJson (reparse sch dflt dumped)), ("stable", .bool (leafStable sch cfg dflt)),
+      ("conf", .bool (conf sch cfg && conf sch dflt && nodupS sch))]
   | "info" => Json.mkObj [("K", .num (JsonNumber.fromNat Jap.Gen.Resolvers.K)), ("nstates", .num (JsonNumber.fromNat Jap.Gen.Resolvers.nstates)),
       ("tags", .arr (Jap.Gen.Resolvers.tagNames.map Json.str).toArray), ("images", .arr (Jap.Gen.Resolvers.imgNames.map Json.str).toArray),
       ("ensure_ascii", .bool Jap.Gen.DumpCfg.jsonEnsureAscii)]
